@@ -102,9 +102,8 @@ C07_Range ==
          /\ nd.kvs[i].ver > nd.from
          /\ nd.kvs[i].k \in DOMAIN s.kv /\ s.kv[nd.kvs[i].k].ver = nd.kvs[i].ver
          /\ i > 1 => nd.kvs[i - 1].ver < nd.kvs[i].ver
-    /\ nd.kvs # <<>> =>
-         {s.kv[k].ver : k \in {k \in DOMAIN s.kv : s.kv[k].ver > nd.from /\ s.kv[k].ver <= nd.max}}
-           = {nd.kvs[i].ver : i \in 1..Len(nd.kvs)}
+    /\ {s.kv[k].ver : k \in {k \in DOMAIN s.kv : s.kv[k].ver > nd.from /\ s.kv[k].ver <= nd.max}}
+         = {nd.kvs[i].ver : i \in 1..Len(nd.kvs)}
 
 EmitEdge == PrintT("EDGE " \o ToJson([s |-> s, r |-> r, b |-> b, expect |-> res']))
 ===============================================================================
